@@ -289,7 +289,7 @@ def gen_task_constraint(g, ty, spec, H):
         if len(names) < 2:
             return None
         a, b = g.subset(names, 2, 2)
-        c.update(before=a, after=b, offset=g.pick([0, 0, 1, 2, 3]), kind=g.pick(["lax", "strict", "tight"]))
+        c.update(before=a, after=b, offset=g.pick([0, 0, 1, 2, 3, 5]), kind=g.pick(["lax", "strict", "tight"]))
     elif ty in ("TasksStartSynced", "TasksEndSynced", "TasksDontOverlap"):
         if len(names) < 2:
             return None
